@@ -243,8 +243,12 @@ def plan(tier, seed, nproc, scale):
     shards = nproc if tier == "quick" else nproc * 4
     small = int((480 if tier == "quick" else 12000) * scale)
     large = int((320 if tier == "quick" else 16000) * scale)
-    return [{"kind": "mixed", "seed": "%d/%d" % (seed, i), "small": max(1, small // shards), "large": max(1, large // shards),
-             "max_leaves": 6000 if tier == "quick" else 40000} for i in range(shards)]
+    specs = [{"kind": "mixed", "seed": "%d/%d" % (seed, i), "small": max(1, small // shards), "large": max(1, large // shards),
+              "max_leaves": 6000 if tier == "quick" else 40000} for i in range(shards)]
+    if tier != "quick":
+        # every rooted ordered tree with 2..7 container nodes x the base descendant queries, as arrays and with some objects
+        specs += [{"kind": "all-shapes", "seed": "%d/s%d" % (seed, i), "shard": i, "shards": shards, "max_leaves": 40000} for i in range(shards)]
+    return specs
 
 
 def run_shard(spec, rec):
@@ -259,6 +263,19 @@ def run_shard(spec, rec):
     det = JSONPathEnvironment()
     abn = __import__("vf.oracle.abnf", fromlist=["x"]).get(True)
     orders = Orders(cap=20000)
+    if spec["kind"] == "all-shapes":
+        k = 0
+        for shape in SHAPES:
+            for text in ("$..[*]", "$..*", "$..[0]", "$..[?@]", "$[*]..[*]", "$..[*]..[0]"):
+                for variant in (0, 1):
+                    k += 1
+                    if k % spec["shards"] != spec["shard"]:
+                        continue
+                    doc = D.deep_copy(shape) if variant == 0 else dictify(R, D.deep_copy(shape), 0.4)
+                    one(rec, R, nd, det, abn, orders, text, doc, spec["max_leaves"], exhaustive=True)
+                    rec.feat("all-shapes")
+        rec.exhaustive = True
+        return
     # the listed finding's own witness, so that it is observed (and still attributed) on every run
     one(rec, R, nd, det, abn, orders, "$..[*]", [[[1], [2]], [3]], spec["max_leaves"], exhaustive=True)
     # battery: member shuffles must survive in every segment position (after a filter, after a descendant segment, inside one)
@@ -400,6 +417,8 @@ def classify_invalid(r, base):
 
 
 def finish(m, tier):
+    if tier != "quick":
+        m["extra"]["exhaustive_scope"] = "all %d rooted ordered trees with 2..7 container nodes x 6 descendant queries x {arrays only, some objects}: complete choice trees (up to the leaf cap); everything else sampled" % len(SHAPES)
     m["extra"]["leaves_executed"] = m["features"].get("leaves", 0)
     m["extra"]["fully_enumerated_inputs"] = m["features"].get("enumeration:complete", 0)
     if m["features"].get("uncontrolled-entropy", 0):
